@@ -37,6 +37,9 @@
 //! }
 //! ```
 
+// `sierradb_verif` is a verification-only cfg (never set in normal builds).
+#![allow(unexpected_cfgs)]
+
 use std::collections::{BTreeMap, HashMap, HashSet};
 
 use kameo::prelude::*;
@@ -185,11 +188,20 @@ impl Message<UpdateConfirmationWithBroadcast> for ConfirmationActor {
         let next_to_broadcast = self.next_broadcast_seq.entry(msg.partition_id).or_insert(0);
 
         if watermark == 0 {
+            #[cfg(sierradb_verif)]
+            crate::subscription::verif_hooks::point(
+                "conf.broadcast.done",
+                uuid::Uuid::nil(),
+                &msg.partition_id.to_string(),
+                0,
+            );
             return Ok(results);
         }
 
         let highest_confirmed_seq = watermark - 1;
 
+        #[cfg(sierradb_verif)]
+        let mut verif_broadcasted = 0u64;
         if *next_to_broadcast <= highest_confirmed_seq {
             let broadcast_from = *next_to_broadcast;
             let broadcast_to = highest_confirmed_seq;
@@ -242,7 +254,18 @@ impl Message<UpdateConfirmationWithBroadcast> for ConfirmationActor {
                     *next_to_broadcast = new_next_to_broadcast;
                 }
             }
+            #[cfg(sierradb_verif)]
+            {
+                verif_broadcasted = broadcasted_count;
+            }
         }
+        #[cfg(sierradb_verif)]
+        crate::subscription::verif_hooks::point(
+            "conf.broadcast.done",
+            uuid::Uuid::nil(),
+            &msg.partition_id.to_string(),
+            verif_broadcasted,
+        );
 
         Ok(results)
     }
